@@ -29,7 +29,7 @@ CHECKS = {
             "bounded model checking (Kani->CBMC): per-state validation against a definitional leftmost-first automaton for all registration orders of small sets + bounded end-to-end vs oracle"),
     "C05": ("model_checking", T_ALL + "; the no-suffix iterator decided over all 4-slot tables from an arbitrary state (state persists across calls); bounded end-to-end runs against the longest-per-end-position oracle",
             "bounded model checking (Kani->CBMC): table validation + inductive iterator step + bounded end-to-end vs oracle"),
-    "C06": ("model_checking", "for every supported value type (13 types x 2 variants) CBMC decides that an automaton whose output carries an ARBITRARY value of that type returns exactly that value with 0<=start<end<=len from the search methods (U-val); on corpus automata built with build()/build_with_values() (repeated values, 0, MAX, 200 index values as u8) the output chain of every state carries exactly the registered value and byte length (T34)",
+    "C06": ("model_checking", "for every supported value type (13 types x 2 variants) CBMC decides that an automaton whose output carries an ARBITRARY value of that type returns exactly that value with 0<=start<end<=len from the search methods (U-val); on corpus automata built with build()/build_with_values() (repeated values, 0, MAX, 200 index values as u8) the output chain of every state carries exactly the registered value and byte length (T34); bare-pattern sets whose positions do not fit the value type (260 as u8, 130 as i8) must not build, and if a tree builds them T34 refutes every value reported for a position that has no representation",
             "bounded model checking (Kani->CBMC) of the generic iterator/value plumbing per concrete value type + output-table validation per built automaton"),
     "C07": ("model_checking", "Kani's pointer-validity and unsafe-precondition checks (get_unchecked, unwrap_unchecked, from_u32_unchecked) are decided for the kind's transition function from ALL real states x ALL labels of every automaton, together with closure of the real-state set (T5) => no haystack can reach an unchecked out-of-table read; the UTF-8 decoder for all pairs/triples of scalar values; every iterator step for all 4-slot tables under the representation invariant",
             "bounded model checking (Kani->CBMC) with memory-safety checks: closure of reachable states under all labels per built table + decoder on all scalar values + iterators over arbitrary small tables"),
@@ -39,11 +39,11 @@ CHECKS = {
             "bounded model checking (Kani->CBMC) of every (de)serialiser on arbitrary values; whole-image round trip bounded to 0/1-element vectors (larger images are outside CBMC's reach here, DESIGN 8.4)"),
     "C11": ("model_checking", "the same multi-block pattern sets are built by the real builder with num_free_blocks in {1,2,3,16} (thorough: {1,2,3,5,16,64}; values are enumerated, not symbolic); every build is validated against the SAME by-definition reference for all (state,label) (T1,T5 quick; T1,T2,T34,T6 thorough), so all builds answer every search identically, stay memory safe and report the same state count",
             "bounded model checking (Kani->CBMC): table validation of each num_free_blocks build against one reference"),
-    "C12": ("model_checking", "for ALL 4-slot tables and all haystacks <= 2 bytes / 2 arbitrary chars: every next() of the three *_from_iter methods returns the slice entry point's match, exactly m.end() bytes have been pulled from a counting source at that moment, exactly len at the final None; the source's size_hint lower bound is an arbitrary valid value",
+    "C12": ("model_checking", "for ALL 4-slot tables and all haystacks <= 2 bytes / 2 arbitrary chars: every next() of the three *_from_iter methods returns the slice entry point's match, exactly m.end() bytes have been pulled from a counting source at that moment, exactly len at the final None; the source's size_hint lower bound is an arbitrary valid value; for ALL 2-slot tables an OWNED [u8; 2] haystack passed by value to the three slice entry points (iterator built in a callee and returned) gives the byte-iterator entry point's matches, under Kani's pointer-validity checks (S-own)",
             "bounded model checking (Kani->CBMC) with an instrumented counting source over arbitrary small tables"),
     "C13": ("model_checking", "ranking function per automaton: for ALL real states the fail link leads to a strictly shallower real state (or the dead state in leftmost kinds) and output parent links strictly decrease (T34/T34lm); the transition loops are unrolled to maxdepth+2 with unwinding assertions for ALL (state,label) (T5) => termination; depth +1 per goto and <= -1 per fail step gives the 2n bound (argued, DESIGN section 3); iterator steps terminate for all 4-slot tables",
             "bounded model checking (Kani->CBMC): rank obligations for all states + unwinding assertions as termination certificates"),
-    "C15": ("translation_validation", "per built automaton CBMC decides for ALL (state,label) that the slots reachable through the real child() are in bijection with the by-definition prefix set (shadow-aware for leftmost-first) (T1), and evaluates num_states()/num_elements()/heap_bytes() on those tables (T6)",
+    "C15": ("translation_validation", "per built automaton CBMC decides for ALL (state,label) that the slots reachable through the real child() are in bijection with the by-definition prefix set (shadow-aware for leftmost-first) (T1), and evaluates num_states()/num_elements()/heap_bytes() on those tables (T6), including a 241-state one-block automaton with zero-sized, 1-byte and 16-byte value types (the 12-bytes-per-state bound is tight there)",
             "bounded model checking (Kani->CBMC) of the real child() over all (state,label) of each built table vs a by-definition node set"),
 }
 
